@@ -254,10 +254,13 @@ def lean_build(targets):
     from . import extract
     with Lock("lake"):
         ex_err = extract.run_all()
-        if ex_err:
-            return False, "EXTRACT FAILED: " + ex_err
+        # a failed extractor removes its Extracted/*.lean, so exactly the theorems that depend on
+        # it fail to build (and are reported as broken obligations); others are unaffected
         r = lake(["build"] + list(targets))
-        return r.returncode == 0, r.stdout
+        out = r.stdout
+        if ex_err:
+            out = "EXTRACT FAILED: " + ex_err + "\n" + out
+        return r.returncode == 0, out
 
 
 def ltmodel_path():
@@ -328,18 +331,37 @@ BANNED = re.compile(r"\bsorry\b|\badmit\b|^\s*axiom\s|native_decide|bv_decide|"
                     r"\bextern\b", re.M)
 
 
-def source_audit():
-    """grep the whole library for banned constructs (comments stripped)."""
+def import_closure(pid):
+    """LtVerif.* modules Props/<pid>.lean depends on (transitively), as file paths"""
+    seen, todo = {}, ["LtVerif.Props." + pid]
+    while todo:
+        m = todo.pop()
+        if m in seen:
+            continue
+        p = os.path.join(LEAN, *m.split(".")) + ".lean"
+        if not os.path.exists(p):
+            continue
+        seen[m] = p
+        for mm in re.finditer(r"^\s*import\s+(LtVerif\.[\w.]+)", open(p).read(), re.M):
+            todo.append(mm.group(1))
+    return sorted(seen.values())
+
+
+def source_audit(pid=None):
+    """grep the library (the import closure of the property's theorems when pid is given)
+    for banned constructs (comments stripped)."""
     hits = []
-    for root, _, files in os.walk(os.path.join(LEAN, "LtVerif")):
-        for f in files:
-            if f.endswith(".lean"):
-                p = os.path.join(root, f)
-                s = strip_lean_comments(open(p).read())
-                for m in BANNED.finditer(s):
-                    ln = s.count("\n", 0, m.start()) + 1
-                    hits.append("%s:%d: %s" % (os.path.relpath(p, LEAN), ln,
-                                               m.group(0).strip()))
+    if pid:
+        files = import_closure(pid)
+    else:
+        files = []
+        for root, _, fs in os.walk(os.path.join(LEAN, "LtVerif")):
+            files += [os.path.join(root, f) for f in fs if f.endswith(".lean")]
+    for p in files:
+        s = strip_lean_comments(open(p).read())
+        for m in BANNED.finditer(s):
+            ln = s.count("\n", 0, m.start()) + 1
+            hits.append("%s:%d: %s" % (os.path.relpath(p, LEAN), ln, m.group(0).strip()))
     return hits
 
 
